@@ -68,16 +68,24 @@ def patch(
     stack = contextlib.ExitStack()
 
     try:
-        for im in std_targets + list([extra_targets] if isinstance(extra_targets, str) else extra_targets):
+        targets = std_targets + list([extra_targets] if isinstance(extra_targets, str) else extra_targets)
+
+        # import target modules that aren't loaded yet before anything is patched. Imported later, their
+        # from-imports would bind the mocks of the standard targets for good, rather than the real
+        # functions which we patch here and restore on exit
+        for im in targets:
+            module_name = ".".join(im.split(".")[:-1])
+            if module_name not in sys.modules:
+                importlib.import_module(module_name)
+
+        for im in targets:
             module_name = ".".join(im.split(".")[:-1])
             fn_name = im.split(".")[-1]
-            # get module or try to import it if not loaded yet
             module = sys.modules.get(module_name) or importlib.import_module(module_name)
             fn = module.__dict__.get(fn_name)
             assert fn, f"No module var {im}"
 
-            # if we imported the module above, it'll already be mocked because
-            # it'll reference the standard targets which are mocked first
+            # already mocked, eg: the same target given twice
             if isinstance(fn, mock.MagicMock):
                 continue
 
